@@ -126,7 +126,61 @@ func (g *PG) Expr(depth int, sc scope) types.MalType {
 		}
 		return g.Lit()
 	}
-	switch g.R.Intn(20) {
+	switch g.R.Intn(23) {
+	case 22: // a def inside a function body binds in the scope of THAT call (also for a call without parameters): invisible outside, the outer binding untouched
+		n, k := g.fresh("dn"), g.R.Intn(3)
+		var params, args []types.MalType
+		for i := 0; i < k; i++ {
+			params = append(params, S(g.fresh("p")))
+			args = append(args, g.Lit())
+		}
+		call := append([]types.MalType{Call("fn", V(params...), Call("def", S(n), Kw("inner")), Call("trace!", S(n)))}, args...)
+		switch g.R.Intn(3) {
+		case 0:
+			g.tag("def-in-call-leaves-outer-global-alone")
+			return Call("do", Call("def", S(n), Kw("outer")), L(call...), S(n))
+		case 1:
+			g.tag("def-in-call-leaves-let-binding-alone")
+			return Call("let", V(S(n), Kw("outer")), L(call...), S(n))
+		default:
+			g.tag("def-in-call-is-unbound-outside")
+			return Call("do", L(call...), S(n))
+		}
+	case 20: // a closure captures a scope, THEN a let in tail position of that scope (directly, through do / if, in a function body) rebinds the captured name
+		a, f := g.fresh("a"), g.fresh("cf")
+		inner := Call("let", V(S(a), g.Int(depth-1, sc)), Call("list", S(a), Call(f)))
+		switch g.R.Intn(4) {
+		case 0:
+			g.tag("tail-let-shadows-captured-name")
+		case 1:
+			g.tag("tail-let-shadows-captured-name-through-do")
+			inner = Call("do", Call("trace!", S(a)), inner)
+		case 2:
+			g.tag("tail-let-shadows-captured-name-through-if")
+			inner = Call("if", g.Cond(depth-1, sc), inner, inner)
+		default:
+			g.tag("tail-let-shadows-parameter-captured-by-closure")
+			return L(Call("fn", V(S(a)), Call("let", V(S(f), Call("fn", V(), S(a))), inner)), g.Int(depth-1, sc))
+		}
+		return Call("let", V(S(a), g.Expr(depth-1, sc), S(f), Call("fn", V(), S(a))), inner)
+	case 21: // a collection literal that is NOT the last form of a body still evaluates its elements (effects, errors)
+		lit := []types.MalType{V(Call("trace!", 1), Call("trace!", 2)), types.HashMap{Val: map[string]types.MalType{Kw("k"): Call("trace!", 1)}},
+			V(V(Call("trace!", g.Lit()))), V(S("undefined-" + g.fresh("u"))), V(Call("throw", "boom")), V(g.Expr(depth-1, sc))}[g.R.Intn(6)]
+		last := Call("trace!", 3)
+		switch g.R.Intn(4) {
+		case 0:
+			g.tag("non-tail-literal-in-do")
+			return Call("do", Call("trace!", 0), lit, last)
+		case 1:
+			g.tag("non-tail-literal-in-let-body")
+			return Call("let", V(), lit, last)
+		case 2:
+			g.tag("non-tail-literal-in-fn-body")
+			return L(Call("fn", V(), lit, last))
+		default:
+			g.tag("non-tail-literal-in-catch-body")
+			return Call("try", Call("throw", 1), Call("catch", S("e"), lit, last))
+		}
 	case 16:
 		return g.macroBuiltCall(depth, sc)
 	case 17: // the callee is evaluated FIRST, then the arguments left to right: a head with an effect, an unbound head, an argument that rebinds the head
